@@ -129,7 +129,11 @@ def attr_text(f):
     return "#[%s(%s)]" % (head, ", ".join(parts))
 
 
-def discr_literal(form, val):
+def native_width(n):
+    return 8 if n <= 8 else 16 if n <= 16 else 32 if n <= 32 else 64 if n <= 64 else 128
+
+
+def discr_literal(form, val, n=16):
     """spellings of an enum discriminant literal"""
     if form == "hex":
         return "0x%X" % val
@@ -137,6 +141,8 @@ def discr_literal(form, val):
         return "0b{:b}".format(val)
     if form == "oct":
         return "0o{:o}".format(val)
+    if form == "suf":
+        return "%du%d" % (val, native_width(n))            # the enum carries the matching #[repr]
     if form == "under":
         t = "%d" % val
         return (t[0] + "_" + t[1:]) if len(t) > 1 else t + "_"
@@ -229,6 +235,8 @@ def decl_source(d, doc=False, derive_debug_enums=True, vis=None):
             out.append("#[derive(Default)]")            # a derive with a HELPER attribute (#[default]) on one variant
         if any(b >= 63 for v in e["variants"] for b in v["d"]):
             out.append("#[repr(u64)]")  # Rust's own rule: discriminants default to isize
+        elif any(v.get("form") == "suf" for v in e["variants"]):
+            out.append("#[repr(u%d)]" % native_width(e["n"]))
         out.append("%senum %s {" % (vis, e["name"]))
         for v in e["variants"]:
             if doc or v.get("doc"):
@@ -245,7 +253,7 @@ def decl_source(d, doc=False, derive_debug_enums=True, vis=None):
                 out.extend(["    #[cfg(all())]", "    #[cfg(any())]"])
             elif v.get("cfg") == "offon":
                 out.extend(["    #[cfg(any())]", "    #[cfg(all())]"])
-            out.append("    %s = %s," % (v["name"], discr_literal(v.get("form", "lit"), bits_to_int(v["d"]))))
+            out.append("    %s = %s," % (v["name"], discr_literal(v.get("form", "lit"), bits_to_int(v["d"]), e["n"])))
         out.append("}")
     for nd in d["nested"]:
         if doc:
